@@ -7,7 +7,7 @@ use blsful::inner_types::{
 };
 use bulletproofs::inner_types::G1Projective;
 use elliptic_curve::group::Curve;
-use elliptic_curve::{Group, PrimeField};
+use elliptic_curve::Group;
 use merlin::Transcript;
 use serde::{Deserialize, Serialize};
 use std::collections::{BTreeMap, BTreeSet};
@@ -146,19 +146,20 @@ impl PokSignatureProof {
         buffer.extend_from_slice(&self.b_bar.to_compressed());
         buffer.extend_from_slice(&self.t.to_compressed());
         for scalar in &self.proof {
-            buffer.extend_from_slice(scalar.to_repr().as_ref());
+            buffer.extend_from_slice(&scalar.to_be_bytes());
         }
         buffer
     }
 
     /// Convert a byte sequence into a Signature Proof of Knowledge
     pub fn from_bytes<B: AsRef<[u8]>>(bytes: B) -> Option<Self> {
-        const SIZE: usize = 32 * 3 + 48 * 3;
+        // three points, then the responses (at least the two for a_bar and b_bar)
+        const SIZE: usize = 32 * 2 + 48 * 3;
         let buffer = bytes.as_ref();
         if buffer.len() < SIZE {
             return None;
         }
-        if buffer.len() % 32 != 0 {
+        if (buffer.len() - 48 * 3) % 32 != 0 {
             return None;
         }
 
